@@ -35,6 +35,7 @@ def make(ctx, conv):
         ny, nx = 2, 2
         data = {'temp': (('t', 'y', 'x'), sym('temp', (2, ny, nx))), 'botz': (('x', 'y'), sym('botz', (nx, ny))),
                 'count': (('y', 'x'), numpy.arange(10, 10 + ny * nx, dtype='int32').reshape(ny, nx)),
+                'single': (('one', 'y', 'x'), sym('single', (1, ny, nx))),
                 'clock': (('t',), numpy.array([5.0, 6.0]))}
         ds = builders.cf1d(ny, nx, data_vars=data)
         cv = CFGrid1D(ds)
@@ -44,6 +45,7 @@ def make(ctx, conv):
         yd, xd = ('y', 'x') if conv == 'cf2d' else ('j', 'i')
         data = {'temp': (('t', yd, xd), sym('temp', (2, ny, nx))), 'botz': ((xd, yd), sym('botz', (nx, ny))),
                 'count': ((yd, xd), numpy.arange(10, 10 + ny * nx, dtype='int32').reshape(ny, nx)),
+                'single': ((yd, 'one', xd), sym('single', (ny, 1, nx))),
                 'clock': (('t',), numpy.array([5.0, 6.0]))}
         jj, ii = numpy.meshgrid(numpy.arange(ny, dtype=float), numpy.arange(nx, dtype=float), indexing='ij')
         lat, lon = 10.0 + jj, 100.0 + 2 * ii
@@ -65,6 +67,8 @@ def make(ctx, conv):
                 'u1': (D['left'], sym('u', S['left'])), 'u2': (D['back'], sym('w', S['back'])),
                 'nodal': (D['node'] + ('t',), sym('n', S['node'] + (2,))),
                 'count': (D['face'], numpy.arange(10, 10 + ny * nx, dtype='int32').reshape(ny, nx)),
+                'single': (('one',) + D['face'], sym('single', (1,) + S['face'])),
+                'single_left': (D['left'] + ('one',), sym('sl', S['left'] + (1,))),
                 'clock': (('t',), numpy.array([5.0, 6.0]))}
         ds = builders.shoc_standard(ny, nx, data_vars=data)
         cv = ShocStandard(ds)
@@ -76,6 +80,8 @@ def make(ctx, conv):
         data = {'temp': (('t', 'nface'), sym('temp', (2, len(faces)))), 'botz': (('nface',), sym('botz', (len(faces),))),
                 'flux': (('nedge', 't'), sym('flux', (ne, 2))), 'nodal': (('nnode',), sym('n', (len(nodes),))),
                 'count': (('nface',), numpy.arange(10, 10 + len(faces), dtype='int32')),
+                'single': (('one', 'nface'), sym('single', (1, len(faces)))),
+                'single_node': (('nnode', 'one'), sym('sn', (len(nodes), 1))),
                 'clock': (('t',), numpy.array([5.0, 6.0]))}
         ds = builders.ugrid(mesh, supply=('edge_node',), data_vars=data)
         cv = UGrid(ds)
